@@ -3,7 +3,9 @@ package crlrepository
 import (
 	"crypto/x509"
 	"crypto/x509/pkix"
+	"hash"
 	"math/big"
+	"net/url"
 	"sync"
 
 	"github.com/gr33nbl00d/caddy-revocation-validator/config"
@@ -132,6 +134,37 @@ func modelCopyFile(l *crlloader.FileLoader, filePath string) error {
 	return nil
 }
 
+// regDigest: collision-free stand-in for SHA-256 over the (concrete) location strings of a harness:
+// the digest of the k-th distinct input is (k, 0, 0, ...). Deterministic for the whole path, restarts included.
+var digestOf map[string]byte
+
+type regDigest struct{ in string }
+
+func (d *regDigest) Write(p []byte) (int, error) { d.in += string(p); return len(p), nil }
+func (d *regDigest) Sum(b []byte) []byte {
+	k, ok := digestOf[d.in]
+	if !ok {
+		k = byte(len(digestOf) + 1)
+		digestOf[d.in] = k
+	}
+	out := make([]byte, 32)
+	out[0] = k
+	return append(b, out...)
+}
+func (d *regDigest) Reset()         { d.in = "" }
+func (d *regDigest) Size() int      { return 32 }
+func (d *regDigest) BlockSize() int { return 64 }
+
+// idOfCDP: the store identifier the real loader code computes for a distribution-point set
+func idOfCDP(urls ...string) string {
+	l, err := crlloader.DefaultCRLLoaderFactory{}.CreatePreferredCrlLoader(&core.CRLLocations{CRLDistributionPoints: urls}, nil)
+	if err != nil {
+		return ""
+	}
+	id, _ := l.GetCRLLocationIdentifier()
+	return id
+}
+
 type world struct {
 	repo *Repository
 	cfg  *config.CRLConfig
@@ -150,8 +183,12 @@ func installWorld() {
 	signer = &core.CertificateChainEntry{RawCertificate: crlstore.VerifReg(sc), Certificate: sc}
 	verifrt.Override("(*"+modRoot+"/crl/crlloader.URLLoader).LoadCRL", modelDownload)
 	verifrt.Override("(*"+modRoot+"/crl/crlloader.FileLoader).LoadCRL", modelCopyFile)
-	verifrt.Override(modRoot+"/crl/crlloader.calculateHashHexString", func(s string) string { return "h-" + s })
-	verifrt.Override("(*"+modRoot+"/crl/crlloader.URLLoader).normalizeUrl", func(l *crlloader.URLLoader) (string, error) { return l.UrlString, nil })
+	// library models only (no internal function of the loader package is replaced):
+	// SHA-256 = an injective registry digest, url.Parse/String = identity
+	digestOf = map[string]byte{}
+	verifrt.Override("crypto/sha256.New", func() hash.Hash { return &regDigest{} })
+	verifrt.Override("net/url.Parse", func(raw string) (*url.URL, error) { return &url.URL{Path: raw}, nil })
+	verifrt.Override("(*net/url.URL).String", func(u *url.URL) string { return u.Path })
 	verifrt.Override(modRoot+"/crl/crlrepository.verifyCRLSignature", modelVerify)
 	verifrt.Override(modRoot+"/core/asn1parser.ParseIssuerRDNSequence", func(c *x509.Certificate) (*pkix.RDNSequence, error) {
 		return crlstore.VerifRdn(certIssuer[c]), nil
@@ -213,5 +250,5 @@ func (w *world) handshake(c *x509.Certificate) (*core.RevocationStatus, error) {
 }
 
 func (w *world) entryFor(url string) *Entry {
-	return w.repo.crlRepository["h-h-"+url]
+	return w.repo.crlRepository[idOfCDP(url)]
 }
